@@ -81,7 +81,11 @@ package printer
 //@   requires len(p.stack) >= 1
 //@   ensures len(p.stack) == old(len(p.stack)) && p.lv == old(p.lv)
 //@   ensures[C18] sep-unchanged: heapfield("ast.AndOrList.Sep") == old(heapfield("ast.AndOrList.Sep"))
+// With the keyword on its own line the ";" that is hidden is the one of the
+// command printed last before it (the last command of the condition): hiding
+// another one leaves a ";" before the line break on the first print only.
 //@ func (*printer).loop
+//@   assert[C18] at call printer.(*printer).trim: the-separator-hidden-is-the-one-before-the-keyword: arg1 == cond[len(cond)-1]
 //@   requires len(p.stack) >= 1 && len(cond) >= 1 && len(cmds) >= 1
 //@   ensures len(p.stack) == old(len(p.stack)) && p.lv == old(p.lv)
 //@   ensures[C18] sep-unchanged: heapfield("ast.AndOrList.Sep") == old(heapfield("ast.AndOrList.Sep"))
